@@ -140,12 +140,18 @@ def model_checks(ctx: Ctx):
     broken = {}
     for mod, cfgs in (("MCPathSafety", ["MCV_nonorm", "MCV_noeq", "MCV_noprefix", "MCV_noabs"]),
                       ("MCPathSafety", ["MCV_abs_nonorm", "MCV_abs_noeq"]),
-                      ("MCFilename", ["MCV_san_nostrip", "MCV_san_nosep", "MCV_san_nosplit", "MCV_san_rstriponly"])):
+                      ("MCFilename", ["MCV_san_nostrip", "MCV_san_nosep", "MCV_san_nosplit", "MCV_san_rstriponly"]),
+                      ("MCFilename", ["MCV_san_trunc3_idem", "MCV_san_trunc4_idem"][:1 if q else 2])):
         for cfg in (cfgs[:2] if q else cfgs):
             r = tlc.run_tlc(AREA, mod, cfg, workers=2, tmp=ctx.tmp, allow_violation=True, timeout=600)
             broken[cfg] = r.invariant_violated
             if not r.invariant_violated:
                 raise MachineryError(f"broken variant {cfg} satisfies the contract: the invariants may be vacuous")
+    if broken.get("MCV_san_trunc3_idem") != "Idempotent":
+        raise MachineryError(f"'truncate after the strip' must violate idempotence, got {broken.get('MCV_san_trunc3_idem')}")
+    if not q:   # ... while it keeps the output shape: only the idempotence clause can see such a change
+        ctx.model_check(AREA, "MCFilename", "MCQ_san_trunc3_shape", timeout=600)
+        ctx.model_check(AREA, "MCFilename", "MCQ_san_trunc4_shape", timeout=600)
     ctx.notes["broken_variants_violate"] = broken
     ctx.exhaustive = True
 
@@ -220,6 +226,31 @@ def san_cases(ctx: Ctx):
               ["a b\tc\nd"], ["　.bashrc"], ["\xa0.profile"], ["CON"], ["aux.txt"], ["-rf"], *[[n] for n in ps.WINDOWS_DEVICE_NAMES], ["x" * 300 + "/" + "." * 20]]
     cases += ps.random_san_cases(rng, 5000 if q else 200000)
     return cases, n_model
+
+
+def judge_long_names(ctx: Ctx):
+    """size dimension of secure_filename: long names x which character class sits at the ends and around the usual
+    length limits (255, 4096), judged with the same clauses (shape, idempotence); keys LongName..."""
+    cases = ps.long_san_cases(random.Random(ctx.seed + 4), ctx.quick)
+    lines = pmap(ps.san_case, cases, workers=ctx.workers, chunksize=64)
+    stats = {"names": len(cases), "longest_input": max(len(c[0]) for c in cases), "output_255_or_256": 0, "output_over_255": 0,
+             "longest_output": 0}
+    for t, (case, ln) in enumerate(zip(cases, lines)):
+        ln["t"], ln["i"] = t, 0
+        n = len(ln["out"])
+        stats["output_255_or_256"] += n in (255, 256)
+        stats["output_over_255"] += n > 255
+        stats["longest_output"] = max(stats["longest_output"], n)
+        if n >= 250:
+            ctx.nontrivial.add(("longname", case[0]))
+        if t % 1999 == 3:
+            ctx.sample({"filename_length": len(case[0]), "head": case[0][:6], "tail": case[0][-6:], "secure_filename_length": n,
+                        "secure_filename_tail": ps.txt(ln["out"][-6:])})
+    ctx.count(len(lines))
+    if stats["output_255_or_256"] < 20 or stats["output_over_255"] < 100:
+        raise MachineryError(f"long-name driver is vacuous: {stats}")
+    _judge(ctx, lines, lambda ln: ("secure_filename", {"x": ln["x"]}), "san", batch=250, prefix="LongName")
+    return stats
 
 
 # --------------------------------------------------------------------------- growth: loader kinds, options, argument types
@@ -441,6 +472,7 @@ def run(ctx: Ctx):
     cases, n_model = san_cases(ctx)
     ctx.notes["filename_cases_from_model"] = n_model
     ctx.notes["filenames_changed"] = sum(judge_sans(ctx, cases[k:k + 120000]) for k in range(0, len(cases), 120000))
+    ctx.notes["long_name_outcomes"] = judge_long_names(ctx)
     # the repository's own tests, recorded and judged call by call
     repo_test_traces(ctx)
 
